@@ -10,6 +10,7 @@ import (
 	"sort"
 	"strings"
 	"sync"
+	"time"
 
 	"golang.org/x/tools/go/packages"
 	"golang.org/x/tools/go/ssa"
@@ -55,6 +56,9 @@ type Verifier struct {
 	pureCalls        map[string]bool
 	symDepth         int
 	opaqueCalls      bool
+	blocksRun        int
+	deadline         time.Time        // end of the time budget of the function under analysis
+	budget           time.Duration    // GCV_FUNC_BUDGET seconds (default 240)
 	lastCallQual     string           // qualified name of the call being anchored (binary.Write, io.Writer.Write): cut targets may use it
 	cutFired         map[int]bool     // cuts of the function under analysis that matched an anchor on some path of some partition
 	nullableResults  bool             // option nullable-results
